@@ -7,7 +7,7 @@ from copy import deepcopy
 from typing import TYPE_CHECKING
 
 # Third Party Imports
-from numpy import argwhere, array, ceil, concatenate, delete, dot, hstack, linspace, ones, outer
+from numpy import argmax, argwhere, array, ceil, concatenate, delete, dot, hstack, linspace, ones, outer
 from numpy import round as np_round
 from numpy import sum as np_sum
 from numpy import union1d, vstack, zeros
@@ -646,9 +646,12 @@ class AdaptiveFilter(KalmanFilter):
             prune_index (``ndarray``): indices of models to be pruned
             observations (``list``): :class:`.Observation` objects associated with the filter step
         """
+        # If every model is marked, the most probable one survives: its weight is positive,
+        # so the renormalisation below stays well defined.
+        keep = int(argmax(self.model_weights)) if len(prune_index) >= len(self.models) else None
         for index in reversed(prune_index):
             # Don't prune everything
-            if len(self.models) != 1:
+            if len(self.models) != 1 and index != keep:
                 self.models.pop(index)
                 self.num_models -= 1
                 self.model_weights = delete(self.model_weights, index)
